@@ -104,6 +104,7 @@ PeerClosedInLastPacket(e, i) ==
   LET J == {j \in (IF i > 400 THEN i - 400 ELSE 1)..(i - 1) : Rec[j].ev = "rxf" /\ Rec[j].ep = e} IN
   J # {} /\ LET last == CHOOSE j \in J : \A k \in J : k <= j IN
              \E j \in J : Rec[j].pn = Rec[last].pn /\ Rec[j].sp = Rec[last].sp /\ Rec[j].ty = "conn_close"
+                             /\ (Rec[j].sp = "a" \/ ~Rec[j].app)    \* a close frame that is itself allowed in that packet
 T_Closed == IsEvent("conn_closed") /\ LET r == Rec[l] IN
   /\ mustClose[r.ep] # {} => \/ (r.error.kind = "transport" /\ r.error.local /\ r.error.code \in mustClose[r.ep])
                               \/ (~r.error.local /\ PeerClosedInLastPacket(r.ep, l))
